@@ -305,6 +305,7 @@ RULE = (
     "lam in [1e-6,1e6]. Non-trivial = a point with an exact zero coordinate or a negative last coordinate, or dimension >= 5 "
     "(spherical); a round trip actually exercised or n >= 5 (barycentric)."
     " The cartesian points are also handed over as nested lists and int64 arrays."
+    " The angle-first sub-check hands the spherical coordinates over as arrays, nested lists or whole numbers as int64 and compares with the n-sphere formula evaluated with math."
 )
 
 PROP = Prop(
